@@ -169,6 +169,8 @@ def _ports_class(n):
 
 def issues_from_validation(ctx, res, label, prop="C06"):
     issues = []
+    per_group = {}
+    dropped = {}
     for f in res["failures"]:
         idx, evname, field = common.parse_mismatch(f["mismatch"])
         cf = _case_fields(f["lines"])
@@ -210,8 +212,8 @@ def issues_from_validation(ctx, res, label, prop="C06"):
             det = ev.get("bad") or ev.get("why") or ""
             sig = "FileFmt:Read:%s:%s:%s" % (field, ev.get("ft"), det or
                                              _fmt_class(cf))
-            if field in ("valsOK", "z0OK", "freqOK"):
-                sig += ":%s:mag%s" % (_prec_class(cf["prec"]), cf["mag"])
+            if field in ("valsOK", "z0OK", "freqOK") and cf["mag"] != "0":
+                sig += ":extreme-magnitude"
             what = ("%s: the file written by vnadata_save, read by the "
                     "independent reader, does not denote the object at '%s' "
                     "(case %s): %s" % (label, field, cf["id"],
@@ -228,20 +230,35 @@ def issues_from_validation(ctx, res, label, prop="C06"):
                     (label, evname.lower(), field, cf["id"],
                      (f["event"] or "").strip()[:300], exp[:120]))
         elif evname == "LoadCmp":
-            sig = "FileFmt:LoadCmp:%s:%s:%s:%s:mag%s" % (
-                field, cf["ext"] + "/" + cf["set"], _fmt_class(cf),
-                _prec_class(cf["prec"]), cf["mag"])
+            sig = "FileFmt:LoadCmp:%s:%s:%s%s" % (
+                field, cf["ext"], "+".join(_fmt_class(cf).split("+")[:2]),
+                ":extreme-magnitude" if cf["mag"] != "0" else "")
             what = ("%s: object produced by vnadata_load differs from the "
                     "file / the original at '%s' (case %s): %s" %
                     (label, field, cf["id"], (f["event"] or "").strip()[:300]))
         else:
             sig = "FileFmt:%s:%s:%s" % (evname, field, _fmt_class(cf))
             what = "%s: %s" % (label, (f["event"] or "")[:300])
+        group = (evname, field)
+        seen = per_group.setdefault(group, {})
+        if sig not in seen:
+            if len(seen) >= MAX_SIGS_PER_FIELD:
+                dropped[group] = dropped.get(group, 0) + 1
+                continue
+            seen[sig] = True
+        else:
+            continue
         rp = ctx.save_replay("vfiles-%s.ndjson" % common.sig_hash(sig),
                              "".join(f["lines"]))
         issues.append(vlib.Issue(props, sig, what, replay=rp,
                                  detail=f["mismatch"]))
+    for group, n in dropped.items():
+        print("note: %d further failing episode(s) at %s/%s with other "
+              "signatures not listed individually" % (n, group[0], group[1]))
     return issues
+
+
+MAX_SIGS_PER_FIELD = 6
 
 
 def issues_from_crashes(ctx, crashes, label, prop="C06"):
@@ -258,6 +275,164 @@ def issues_from_crashes(ctx, crashes, label, prop="C06"):
                                  "%s: driver process died in case %s: %s in %s"
                                  % (label, c["case"], s[0], s[1]), replay=rp))
     return issues
+
+
+# --------------------------------------------------------------------------
+# monitor-style trace validation
+# --------------------------------------------------------------------------
+# FileFmtTrace / FileFmtSpellTrace do not block on an unexplained event:
+# they print it (MISMATCH / EXPECTED) and go on, so that a single TLC run
+# reports every unexplained event of a shard.  A trace is accepted iff TLC
+# consumed every line (POSTCONDITION) and printed no MISMATCH.  Episodes with
+# a mismatch are validated once more on their own before they are reported
+# (a rejection is reported only if it repeats).
+
+_MM_RE = re.compile(r'<<"MISMATCH", (\d+), "([^"]*)", "([^"]*)">>')
+_STOP_RE = re.compile(r'\n(?=<<\s*"MISMATCH"|Model checking|Finished|Progress|'
+                      r'Error|The |\d+ states|Checking|Computing)')
+
+
+def _parse_mismatches(out):
+    res = []
+    seen = set()
+    for m in _MM_RE.finditer(out):
+        l, ev, field = int(m.group(1)), m.group(2), m.group(3)
+        if (l, field) in seen:
+            continue
+        seen.add((l, field))
+        rest = out[m.end():]
+        exp = ""
+        em = re.match(r'\s*<<\s*"EXPECTED",\s*', rest)
+        if em:
+            body = rest[em.end():]
+            stop = _STOP_RE.search(body)
+            body = body[:stop.start()] if stop else body
+            body = body.rstrip()
+            if body.endswith(">>"):
+                body = body[:-2]
+            exp = re.sub(r"\s+", " ", body)[:600]
+        res.append((l, ev, field, exp))
+    return res
+
+
+def _monitor_run(module, cfg, path, workdir, timeout):
+    """one TLC run over a trace file.  Returns (complete, stuck_at,
+    mismatches, generated, out): complete = every line consumed; stuck_at =
+    0-based index of the first line no action matches (or None)."""
+    with open(path) as fp:
+        total = sum(1 for _ in fp)
+    r = vlib.tlc(module, cfg, workdir, env={"TRACE": path}, workers=1,
+                 timeout=timeout, heap="3g")
+    out = r["out"]
+    done = (r["rc"] == 0 and
+            "Model checking completed. No error has been found" in out)
+    mm = _parse_mismatches(out)
+    stuck = None
+    if not done:
+        if r["depth"] >= 1 and ("ostcondition" in out or r["rc"] in (10, 12, 13)):
+            stuck = r["depth"] - 1
+        else:
+            return (False, -1, mm, r["generated"], out)
+    return (done, stuck, mm, r["generated"], out)
+
+
+def validate_monitor(module, cfg, trace_path, workdir, shards=None,
+                     timeout=3000):
+    """Same result shape as vlib.validate_sharded."""
+    eps = vlib.split_episodes(trace_path)
+    result = {"events": sum(len(e[1]) for e in eps), "episodes": len(eps),
+              "failures": [], "errors": [], "generated": 0}
+    if not eps:
+        return result
+    shards = shards or min(vlib.NCPU, max(1, len(eps) // 150 + 1))
+    shards = max(1, min(shards, len(eps)))
+    bounds = [(len(eps) * i // shards, len(eps) * (i + 1) // shards)
+              for i in range(shards)]
+
+    def scan(group, tag):
+        """returns (suspects [(episode index in group, idx, ev, field, exp)],
+        errors, generated)"""
+        suspects, errors, gen = [], [], 0
+        base = 0
+        rounds = 0
+        while base < len(group) and rounds < 40:
+            rounds += 1
+            p = os.path.join(workdir, "mon-%s-%d.ndjson" % (tag, rounds))
+            offs = []
+            with open(p, "w") as fp:
+                n = 0
+                for _, lines in group[base:]:
+                    offs.append(n)
+                    fp.writelines(lines)
+                    n += len(lines)
+            done, stuck, mm, g, out = _monitor_run(module, cfg, p, workdir,
+                                                   timeout)
+            gen += g
+            os.unlink(p)
+            if stuck == -1:
+                errors.append(out[-3000:])
+                break
+
+            def locate(line0):
+                k = 0
+                while k + 1 < len(offs) and offs[k + 1] <= line0:
+                    k += 1
+                return k
+            firsts = {}
+            for (l, ev, field, exp) in mm:
+                k = locate(l - 1)
+                if k not in firsts:
+                    firsts[k] = (base + k, l - 1 - offs[k], ev, field, exp)
+            if done:
+                suspects += [firsts[k] for k in sorted(firsts)]
+                break
+            k = locate(stuck)
+            suspects += [firsts[j] for j in sorted(firsts) if j < k]
+            ln = group[base + k][1]
+            idx = stuck - offs[k]
+            try:
+                evn = json.loads(ln[idx]).get("e", "?") if idx < len(ln) else "?"
+            except ValueError:
+                evn = "?"
+            suspects.append((base + k, idx, evn, "shape",
+                             "no action of the trace spec matches this event "
+                             "here"))
+            base = base + k + 1
+        return suspects, errors, gen
+
+    def work(i):
+        lo, hi = bounds[i]
+        return scan(eps[lo:hi], "s%d" % i), lo
+
+    suspects = []
+    with concurrent.futures.ThreadPoolExecutor(shards) as ex:
+        for (sus, errs, gen), lo in ex.map(work, range(shards)):
+            result["errors"] += errs
+            result["generated"] += gen
+            suspects += [(lo + k, idx, ev, field, exp)
+                         for (k, idx, ev, field, exp) in sus]
+    if not suspects:
+        return result
+    # confirmation: the suspect episodes on their own, in one more pass
+    sus_eps = [eps[k] for (k, _, _, _, _) in suspects]
+    confirmed, errs, gen = scan(sus_eps, "confirm")
+    result["generated"] += gen
+    result["errors"] += errs
+    conf = {k: (idx, ev, field, exp) for (k, idx, ev, field, exp) in confirmed}
+    for j, (k, idx, ev, field, exp) in enumerate(suspects):
+        if j not in conf:
+            result["errors"].append("episode at line %d rejected in its shard "
+                                    "but accepted alone: not reported" %
+                                    eps[k][0])
+            continue
+        idx, ev, field, exp = conf[j]
+        start, lines = eps[k]
+        result["failures"].append({
+            "lines": lines, "index": idx,
+            "event": lines[idx] if idx < len(lines) else "",
+            "mismatch": '%d, "%s", "%s"' % (idx, ev, field),
+            "expected": exp, "start": start, "out": ""})
+    return result
 
 
 # --------------------------------------------------------------------------
@@ -320,9 +495,8 @@ def run_c06(ctx, exe, table, tier, seed):
             if line.startswith('{"e":"Save3"') and '"sv":{"ok":1' in line:
                 ctx.sample(json.loads(line))
                 break
-    res = vlib.validate_sharded("FileFmtTrace.tla", "FileFmtTrace.cfg", tr,
-                                ctx.work, max_failures=8 if tier == "quick" else 25,
-                                timeout=3000)
+    res = validate_monitor("FileFmtTrace.tla", "FileFmtTrace.cfg", tr,
+                           ctx.work, timeout=3000)
     ctx.machinery_errors += res["errors"]
     issues += issues_from_validation(ctx, res, "save/load replay")
     stats = {"cases": total, "events": res["events"], "episodes": res["episodes"],
@@ -350,6 +524,12 @@ def replay(ctx, exe, path, prop="C06"):
     tmp = os.path.join(ctx.work, "tmpfiles")
     os.makedirs(tmp, exist_ok=True)
     kind = cid.split(":")[0]
+    if kind in ("fmt", "stick"):
+        parts = cid.split(":")
+        tier = parts[3] if len(parts) > 3 else "quick"
+        issues, _ = run_ext(ctx, exe, tier, int(parts[1]), prop,
+                            only=(kind, int(parts[2])))
+        return issues
     args = [kind + "id", cid]
     crashes = common.run_cases(exe, lambda a, b: args, 0, 1, tp, lambda c: 0,
                                max_crashes=1, env={"VFILES_TMP": tmp})
@@ -358,8 +538,441 @@ def replay(ctx, exe, path, prop="C06"):
         import vfiles_oracle
         if kind == "c06":
             vfiles_oracle.process_c06(tp, tp + ".obs")
-            res = vlib.validate_sharded("FileFmtTrace.tla", "FileFmtTrace.cfg",
-                                        tp + ".obs", ctx.work, shards=1)
+            res = validate_monitor("FileFmtTrace.tla", "FileFmtTrace.cfg",
+                                   tp + ".obs", ctx.work, shards=1)
             ctx.machinery_errors += res["errors"]
             issues += issues_from_validation(ctx, res, "replay", prop)
     return issues
+
+
+# --------------------------------------------------------------------------
+# C08: equivalent spellings
+# --------------------------------------------------------------------------
+
+def mc_spell(ctx, tier):
+    cfg = ("FileFmtSpellMC_quick.cfg" if tier == "quick"
+           else "FileFmtSpellMC_thorough.cfg")
+    table = os.path.join(ctx.work, "vfiles-spell.json")
+    r = vlib.tlc_model_check("FileFmtSpellMC.tla", cfg, ctx.work, workers=8,
+                             timeout=1500, env={"VFILES_SPELL_TABLE": table})
+    ctx.add_mc("FileFmtSpellMC/" + cfg, r)
+    with open(table) as fp:
+        t = json.load(fp)
+    if r["distinct"] != len(t):
+        raise vlib.MachineryError("FileFmtSpellMC: %d states but %d classes" %
+                                  (r["distinct"], len(t)))
+    return r, t
+
+
+def choose_pairs(table, tier, seed, quick_n=1300):
+    """(class index, variant index) pairs.  quick: a seeded sample that
+    contains every value of every spelling dimension at least 12 times;
+    thorough: every variant of every class."""
+    allp = [(ci, vi) for ci, rec in enumerate(table)
+            for vi in range(len(rec["variants"]))]
+    if tier != "quick":
+        return allp
+    rng = random.Random(seed)
+    rng.shuffle(allp)
+    dims = ("fr", "unit", "fmt", "mf", "ord", "deco", "num", "lb", "acc", "ref",
+            "mfx", "noise")
+    need = {}
+    chosen = []
+    rest = []
+    for (ci, vi) in allp:
+        v = table[ci]["variants"][vi]
+        if table[ci]["kind"] == "npd":
+            keys = [("n" + d, str(v[d])) for d in ("fmt", "names", "deco", "num",
+                                                   "acc")]
+            keys.append(("norder", ",".join(v["order"])))
+        else:
+            keys = [(d, str(v[d])) for d in dims] + [
+                ("perm", ",".join(v["perm"])), ("omit", ",".join(v["omit"])),
+                ("kwp", v["kwp"][0] + v["fr"])]
+        if any(need.get(k, 0) < 12 for k in keys):
+            for k in keys:
+                need[k] = need.get(k, 0) + 1
+            chosen.append((ci, vi))
+        else:
+            rest.append((ci, vi))
+    chosen += rest[:max(0, quick_n - len(chosen))]
+    chosen.sort()
+    return chosen
+
+
+def _gen_pair(args):
+    idx, ci, vi, kind, cls, base, var, seed, outdir = args
+    import tsgen
+    cseed = (seed * 1000003 + ci) & 0x7fffffff
+    if kind == "npd":
+        content = tsgen.make_npd_content(cls, cseed)
+    else:
+        content = tsgen.make_content(cls, cseed)
+    side = {"cls": cls, "seed": cseed, "ci": ci, "vi": vi, "kind": kind}
+    fields = [str(idx), str(ci), str(vi)]
+    for which, sp in (("a", base), ("b", var)):
+        rseed = (seed * 31 + ci) * 1009 + vi * 2 + (which == "b")
+        if kind == "npd":
+            data = tsgen.render_npd(content, sp, rseed)
+            meta = {}
+            suf, namesuf, fset, meth = tsgen.npd_access_plan(sp)
+        else:
+            data, meta = tsgen.render_touchstone(content, sp, rseed)
+            suf, namesuf, fset, meth = tsgen.access_plan(content, sp)
+        path = os.path.join(outdir, "p%d%s%s" % (idx, which, suf))
+        with open(path, "wb") as fp:
+            fp.write(data)
+        side[which] = {"s": sp, "gen": meta, "path": path}
+        fields += [path, path, fset, meth]
+    return idx, " ".join(fields), side
+
+
+def gen_pairs(table, pairs, seed, outdir):
+    os.makedirs(outdir, exist_ok=True)
+    jobs = [(i, ci, vi, table[ci]["kind"], table[ci]["content"],
+             table[ci]["base"], table[ci]["variants"][vi], seed, outdir)
+            for i, (ci, vi) in enumerate(pairs)]
+    sidecar = {}
+    lines = [None] * len(jobs)
+    with concurrent.futures.ProcessPoolExecutor(vlib.NCPU) as ex:
+        for idx, line, side in ex.map(_gen_pair, jobs, chunksize=64):
+            lines[idx] = line
+            sidecar[idx] = side
+    manifest = os.path.join(outdir, "manifest.txt")
+    with open(manifest, "w") as fp:
+        fp.write("\n".join(lines) + "\n")
+    return manifest, sidecar
+
+
+def _oracle08_one(args):
+    src, dst, sidepath = args
+    import vfiles_oracle
+    with open(sidepath) as fp:
+        sidecar = {int(k): v for k, v in json.load(fp).items()}
+    return vfiles_oracle.process_c08(src, dst, sidecar)
+
+
+def _spell_class(s):
+    return "%s/%s/%s/%s/%s" % (s["fr"], s["unit"], s["fmt"], s["mf"], s["ord"])
+
+
+def issues_c08(ctx, res, label, sidecar):
+    issues = []
+    per_group = {}
+    dropped = {}
+    for f in res["failures"]:
+        idx, evname, field = common.parse_mismatch(f["mismatch"])
+        try:
+            ev = json.loads(f["event"]) if f["event"] else {}
+        except ValueError:
+            ev = {}
+        m = common.CASE_RE.search(f["lines"][0])
+        cid = m.group(1) if m else "?"
+        props = {"C08"}
+        if field.startswith("gen:"):
+            ctx.machinery_errors.append(
+                "tsgen did not write the spelling the spec asked for (%s, case "
+                "%s): %s" % (field, cid, (f.get("expected") or "")[:300]))
+            continue
+        if evname == "End":
+            sig = "Spell:End:live"
+            props = {"C03"}
+            what = "allocation still live after loading (case %s)" % cid
+        else:
+            s = ev.get("s", {})
+            c = ev.get("c", {})
+            if evname == "NLoad":
+                if field == "ok":
+                    sig = "Spell:NLoad:ok:%s:%s" % (ev.get("err"), ev.get("msg"))
+                else:
+                    sig = "Spell:NLoad:%s:%s:fmt=%s:%s:%s" % (
+                        field, c.get("type"), s.get("fmt"), c.get("z0k"),
+                        s.get("deco"))
+            elif field == "ok":
+                # the library's own message names the call site
+                sig = "Spell:SLoad:ok:%s:%s:%s" % (ev.get("err"), ev.get("msg"),
+                                                   s.get("fr"))
+            elif field == "freqOK":
+                sig = "Spell:SLoad:freqOK:%s:%s" % (s.get("fr"), s.get("unit"))
+            elif field in ("z0OK", "ftAfter", "type", "nf", "fz0"):
+                sig = "Spell:SLoad:%s:%s:%s:%s" % (field, s.get("fr"),
+                                                   c.get("z0k"), c.get("param"))
+            else:
+                norm = s.get("fr") == "v1" and c.get("param") != "S"
+                sig = "Spell:SLoad:%s:%s:%s:%s:%s%s%s" % (
+                    field, s.get("fr"), s.get("fmt"), s.get("mf"), s.get("ord"),
+                    ":normalised-" + str(c.get("param")) if norm else "",
+                    ":%dp" % c.get("ports", 0) if field == "dims" else "")
+            what = ("%s: vnadata_%s of spelling %s of content %s: '%s' not as the "
+                    "format defines (case %s): %s; spec: %s" %
+                    (label, ev.get("meth"), json.dumps(s)[:260], json.dumps(c),
+                     field, cid, json.dumps({k: ev.get(k) for k in
+                                             ("ok", "err", "cb", "p", "obs",
+                                              "pairOK", "ftAfter")}),
+                     (f.get("expected") or "")[:160]))
+        # the replay artefact carries the generated files themselves
+        lines = list(f["lines"])
+        try:
+            pi = int(cid.split(":")[2])
+            for which in ("a", "b"):
+                with open(sidecar[pi][which]["path"], "rb") as fp:
+                    lines.append(json.dumps({"e": "File", "which": which,
+                                             "bytes": fp.read().decode("latin-1")})
+                                 + "\n")
+        except (OSError, KeyError, ValueError, IndexError):
+            pass
+        group = (evname, field)
+        seen = per_group.setdefault(group, set())
+        if sig in seen:
+            continue
+        if len(seen) >= MAX_SIGS_PER_FIELD:
+            dropped[group] = dropped.get(group, 0) + 1
+            continue
+        seen.add(sig)
+        rp = ctx.save_replay("vfiles-%s.ndjson" % common.sig_hash(sig),
+                             "".join(lines))
+        issues.append(vlib.Issue(props, sig, what, replay=rp, detail=f["mismatch"]))
+    for group, n in dropped.items():
+        print("note: %d further failing episode(s) at %s/%s with other "
+              "signatures not listed individually" % (n, group[0], group[1]))
+    return issues
+
+
+def _nontrivial_c08(lines):
+    return sum(1 for ln in lines if (ln.startswith('{"e":"SLoad"') or
+                                     ln.startswith('{"e":"NLoad"')) and
+               '"ok":1' in ln) == 2
+
+
+def run_c08(ctx, exe, table, tier, seed, only=None):
+    """only: list of (ci, vi) to run (replay)"""
+    issues = []
+    if only is None:
+        _clean_replays(ctx.prop)
+    pairs = only if only is not None else choose_pairs(table, tier, seed)
+    gdir = os.path.join(ctx.work, "spell-files")
+    manifest, sidecar = gen_pairs(table, pairs, seed, gdir)
+    sidepath = os.path.join(ctx.work, "spell-sidecar.json")
+    with open(sidepath, "w") as fp:
+        json.dump({str(k): v for k, v in sidecar.items()}, fp)
+    total = len(pairs)
+    paths, crashes = common.run_sharded(
+        exe, lambda a, b: ["c08", manifest, str(seed), str(a), str(b)], total,
+        ctx.work, "c08", _case_index, nshards=min(vlib.NCPU, max(1, total // 20)),
+        timeout=3000)
+    issues += issues_from_crashes(ctx, crashes, "spellings", "C08")
+    for p in paths:
+        common.strip_crashed_episodes(p)
+    jobs = [(p, p + ".obs", sidepath) for p in paths]
+    margins = {}
+    loads = 0
+    with concurrent.futures.ProcessPoolExecutor(min(vlib.NCPU, len(jobs))) as ex:
+        for st in ex.map(_oracle08_one, jobs):
+            loads += st["loads"]
+            for k, v in st["margins"].items():
+                margins[k] = max(margins.get(k, 0.0), v)
+    tr = common.concat([j[1] for j in jobs],
+                       os.path.join(ctx.work, "c08-all.ndjson"))
+    for j in jobs:
+        os.unlink(j[0])
+        os.unlink(j[1])
+    with open(tr) as fp:
+        for line in fp:
+            if line.startswith('{"e":"SLoad"') and '"which":"b"' in line:
+                ctx.sample(json.loads(line))
+                break
+    res = validate_monitor("FileFmtSpellTrace.tla", "FileFmtSpellTrace.cfg", tr,
+                           ctx.work, timeout=3000)
+    ctx.machinery_errors += res["errors"]
+    issues += issues_c08(ctx, res, "spellings", sidecar)
+    stats = {"pairs": total, "files": 2 * total, "events": res["events"],
+             "episodes": res["episodes"], "crashes": len(crashes),
+             "loads": loads, "tlc_generated": res["generated"],
+             "worst_error_over_tolerance": margins,
+             "distinct_nontrivial": common.count_distinct_nontrivial(
+                 tr, _nontrivial_c08)}
+    return issues, stats
+
+
+def replay_c08(ctx, exe, table, path):
+    with open(path) as fp:
+        first = fp.readline()
+    m = common.CASE_RE.search(first)
+    if m:
+        cid = m.group(1)
+    elif first.startswith("case "):
+        cid = first.split()[1]
+    else:
+        raise vlib.MachineryError("no case id in " + path)
+    parts = cid.split(":")
+    if parts[0] != "c08" or len(parts) != 5:
+        raise vlib.MachineryError("not a C08 case id: " + cid)
+    seed, ci, vi = int(parts[1]), int(parts[3]), int(parts[4])
+    issues, stats = run_c08(ctx, exe, table, "quick", seed, only=[(ci, vi)])
+    return issues
+
+
+# --------------------------------------------------------------------------
+# extensions: format-string grammar table, file type memory
+# --------------------------------------------------------------------------
+
+def mc_stick(ctx, tier):
+    cfg = "FileFmtStickMC.cfg" if tier == "quick" else "FileFmtStickMC_thorough.cfg"
+    table = os.path.join(ctx.work, "vfiles-grammar.json")
+    r = vlib.tlc_model_check("FileFmtStickMC.tla", cfg, ctx.work, workers=4,
+                             timeout=900, env={"VFILES_GRAMMAR_TABLE": table})
+    ctx.add_mc("FileFmtStickMC/" + cfg, r)
+    with open(table) as fp:
+        return r, json.load(fp)
+
+
+def _stick_files(outdir, seed):
+    """the same 2-port S content as NPD / Touchstone 1 / Touchstone 2 under
+    every extension class"""
+    import tsgen
+    os.makedirs(outdir, exist_ok=True)
+    cls = {"param": "S", "ports": 2, "nf": 2, "z0k": "r50", "sym": False,
+           "noise": 0}
+    content = tsgen.make_content(cls, seed)
+    base = {"fr": "v1", "unit": "hz", "fmt": "ri", "mf": "full", "ord": "21_12",
+            "perm": ["unit", "param", "fmt", "r"], "omit": [],
+            "kwp": ["order", "nfreq", "nnoise", "reference", "mformat"],
+            "ref": False, "mfx": False, "noise": False, "deco": "plain",
+            "num": "exp", "lb": "std", "acc": "load"}
+    v1, _ = tsgen.render_touchstone(content, base, 1)
+    v2, _ = tsgen.render_touchstone(content, dict(base, fr="v2", ord="12_21"), 1)
+    ncont = {"type": "S", "ports": 2, "nf": 2, "freqs": content["freqs"],
+             "z0": [complex(50.0, 0.0)] * 2, "fz0": None, "data": content["data"]}
+    npd = tsgen.render_npd(ncont, {"order": ["version", "ports", "frequencies",
+                                             "parameters", "z0"],
+                                   "fmt": "ri", "deco": "plain", "num": "exp",
+                                   "names": "asis"}, 1)
+    for kind, data in (("ts1", v1), ("ts2", v2), ("npd", npd)):
+        for suf in ("", ".dat", ".npd", ".ts", ".s2p"):
+            with open(os.path.join(outdir, "k_%s%s" % (kind, suf)), "wb") as fp:
+                fp.write(data)
+
+
+_STICK_OPS = (["set:%s" % x for x in ("auto", "npd", "ts1", "ts2")] +
+              ["load:%s:%s" % (e, k) for e in ("none", "other", "npd", "ts", "snp")
+               for k in ("npd", "ts1", "ts2")] +
+              ["save:%s" % e for e in ("none", "other", "npd", "ts", "snp")])
+
+
+def issues_ext(ctx, res, label, prop):
+    issues = []
+    seen = {}
+    for f in res["failures"]:
+        idx, evname, field = common.parse_mismatch(f["mismatch"])
+        try:
+            ev = json.loads(f["event"]) if f["event"] else {}
+        except ValueError:
+            ev = {}
+        props = {prop}
+        if evname == "SetFmt":
+            sig = "Fmt:SetFmt:%s:%s" % (field, "".join(ev.get("toks", [])))
+            if field in ("refuses", "err", "keptOnFailure"):
+                props.add("C11")
+            what = ("%s: vnadata_set_format / get_format on tokens %s: '%s' not "
+                    "as FileFmt!ParseFormat says: %s; spec: %s" %
+                    (label, ev.get("toks"), field, (f["event"] or "").strip()[:300],
+                     (f.get("expected") or "")[:200]))
+        elif evname == "Stick":
+            op = ev.get("op", {})
+            sig = "Stick:%s:%s:%s:%s" % (field, op.get("op"),
+                                         op.get("ext", op.get("ft")),
+                                         op.get("kind", ""))
+            if field == "refused":
+                props.add("C11")
+            what = ("%s: file type memory: %s after %s; spec: %s" %
+                    (label, field, (f["event"] or "").strip()[:300],
+                     (f.get("expected") or "")[:200]))
+        elif evname == "End":
+            sig = "Ext:End:live"
+            props = {"C03"}
+            what = "allocation still live at the end of an episode"
+        else:
+            sig = "Ext:%s:%s" % (evname, field)
+            what = (f["event"] or "")[:300]
+        k = (evname, field)
+        seen.setdefault(k, set())
+        if sig in seen[k] or len(seen[k]) >= MAX_SIGS_PER_FIELD:
+            continue
+        seen[k].add(sig)
+        rp = ctx.save_replay("vfiles-ext-%s.ndjson" % common.sig_hash(sig),
+                             "".join(f["lines"]))
+        issues.append(vlib.Issue(props, sig, what, replay=rp, detail=f["mismatch"]))
+    return issues
+
+
+def run_ext(ctx, exe, tier, seed, prop="C06", only=None):
+    """grammar table replay + file type memory histories.
+    only = ("fmt" | "stick", index): re-run that single case (replay)"""
+    r, grammar = mc_stick(ctx, tier)
+    env = {"VFILES_TAG": tier, "VFILES_SEED": str(seed)}
+    rng = random.Random(seed)
+    rows = grammar
+    if tier == "quick":
+        keep = [g for g in rows if g["ok"] != "no"]
+        no = [g for g in rows if g["ok"] == "no"]
+        rows = keep + rng.sample(no, min(len(no), 1200))
+    gfile = os.path.join(ctx.work, "fmt-cases.txt")
+    with open(gfile, "w") as fp:
+        for i, g in enumerate(rows):
+            fp.write("%d %s\n" % (i, " ".join(g["toks"])))
+    issues = []
+    paths, crashes = [], []
+    if only is None:
+        paths, crashes = common.run_sharded(
+            exe, lambda a, b: ["fmt", gfile, str(seed), str(a), str(b)],
+            len(rows), ctx.work, "fmt", _case_index, nshards=8, timeout=1200,
+            env=env)
+    elif only[0] == "fmt":
+        tp = os.path.join(ctx.work, "fmt-one.ndjson")
+        open(tp, "w").close()
+        crashes = common.run_cases(
+            exe, lambda a, b: ["fmt", gfile, str(seed), str(only[1]),
+                               str(only[1] + 1)], 0, 1, tp, lambda c: 0,
+            max_crashes=1, env=env)
+        paths = [tp]
+    issues += issues_from_crashes(ctx, crashes, "format grammar", prop)
+    # file type memory
+    sdir = os.path.join(ctx.work, "stick-files")
+    _stick_files(sdir, seed)
+    hist = [[a, b] for a in _STICK_OPS for b in _STICK_OPS]
+    nrand = 400 if tier == "quick" else 6000
+    for _ in range(nrand):
+        hist.append([rng.choice(_STICK_OPS) for _ in range(rng.randrange(3, 8))])
+    if tier == "quick":
+        hist = rng.sample(hist[:len(_STICK_OPS) ** 2], 300) + hist[-nrand:]
+    sfile = os.path.join(ctx.work, "stick-cases.txt")
+    with open(sfile, "w") as fp:
+        for i, h in enumerate(hist):
+            fp.write("%d %s\n" % (i, " ".join(h)))
+    paths2, crashes2 = [], []
+    if only is None:
+        paths2, crashes2 = common.run_sharded(
+            exe, lambda a, b: ["stick", sfile, sdir, str(a), str(b)], len(hist),
+            ctx.work, "stick", _case_index, nshards=8, timeout=1200, env=env)
+    elif only[0] == "stick":
+        tp = os.path.join(ctx.work, "stick-one.ndjson")
+        open(tp, "w").close()
+        crashes2 = common.run_cases(
+            exe, lambda a, b: ["stick", sfile, sdir, str(only[1]),
+                               str(only[1] + 1)], 0, 1, tp, lambda c: 0,
+            max_crashes=1, env=env)
+        paths2 = [tp]
+    issues += issues_from_crashes(ctx, crashes2, "file type memory", prop)
+    for p in paths + paths2:
+        common.strip_crashed_episodes(p)
+    tr = common.concat(paths + paths2, os.path.join(ctx.work, "ext-all.ndjson"))
+    for p in paths + paths2:
+        os.unlink(p)
+    res = validate_monitor("FileFmtStickTrace.tla", "FileFmtStickTrace.cfg", tr,
+                           ctx.work, timeout=1800)
+    ctx.machinery_errors += res["errors"]
+    issues += issues_ext(ctx, res, "grammar / file type", prop)
+    stats = {"grammar_rows": len(rows), "histories": len(hist),
+             "events": res["events"], "episodes": res["episodes"],
+             "crashes": len(crashes) + len(crashes2)}
+    return issues, stats
